@@ -108,19 +108,19 @@ theorem new_wf (cfg : Cfg) (p : Pos) (h : Pos.new cfg = .ok p) : WFBoard p := by
       injection h with h
       subst h
       have hn : SizeOK cfg.size := by unfold SizeOK; omega
-      refine ⟨hn, rfl, ?_, ?_, ?_, ?_, ?_, ?_⟩
+      refine ⟨⟨hn, rfl, ?_, ?_, ?_, ?_⟩, ?_, ?_⟩
       · intro i hi; simp at hi
-      · intro i hi; simp at hi
-      · simp
       · intro i hi; simp at hi
       · simp
       · have h0 : ∀ c : Consts, floodGroups c 0#64 = some [] := by
           intro c; unfold floodGroups floodGroupsFuel; simp
         unfold Pos.analyze
         simp [h0]
+      · intro i hi; simp at hi
+      · simp
 
 /-! ### `ptn.ResultFromGame` -/
-theorem result_refines (p : Pos) (wf : WFBoard p) (hr : ReservesOK p) :
+theorem result_refines (p : Pos) (wf : RoadWF p) (hr : ReservesOK p) :
     p.resultFromGame = match Spec.result (Spec.abs p) with
       | some r => .ok r
       | none => .error (.panic "ResultFromGame: game is not over") := by
